@@ -359,6 +359,15 @@ def nb_cases(chk, tier):
         for i in range(per * (3 if sc == 'random' else 1)):
             b, l, rr, s = G.gen_triple(r, sc)
             out.append({'base': b, 'local': l, 'remote': rr, 'scenario': s})
+    # the shared notebook generator (rich notebooks: outputs, attachments, metadata, ids): C03's triples
+    try:
+        import gennb, random
+        r2 = random.Random(r.getrandbits(32))      # own stream: a change in gennb cannot shift the cases above
+        for i in range(60 if tier == 'quick' else 1500):
+            b, l, rr = gennb.gen_triple(r2, conflict_bias=0.7)
+            out.append({'base': b, 'local': l, 'remote': rr, 'scenario': 'gennb'})
+    except Exception as e:
+        chk.notes.append('harness/gennb.gen_triple not usable: %r' % (e,))
     return out
 
 # ------------------------------------------------------------------ shrinking (cheap): drop cells common to all three
